@@ -88,7 +88,11 @@ def _run_task(reg, prop, task, only, verbose, z3_ms, cvc5_ms, workers, parent):
                     eng.assumptions.add("assumed flow contract: %s (%s)" % (fc.flow, fc.opts["assumed"]))
                     continue
                 try:
-                    cov1.verify_flow(eng, fc, getattr(reg, "parsed_flows", {}))
+                    if fc.version == "2.x":
+                        from coverif import v2 as cov2
+                        cov2.verify_flow(eng, fc, getattr(reg, "parsed_flows", {}))
+                    else:
+                        cov1.verify_flow(eng, fc, getattr(reg, "parsed_flows", {}))
                 except (OutOfSubset, CheckerError) as ex:
                     errors.append((fc.flow, type(ex).__name__, str(ex)))
     except (OutOfSubset, CheckerError) as ex:
